@@ -240,8 +240,17 @@ func TestVerifC12(t *testing.T) {
 				})
 				lo := x.Now()
 				x.VDelete(ix, "v") // settles in the live engine
-				if took.Load() == 1 {
-					<-imgDone // the hit counter moves before the handler runs: wait for the copy
+				// The hit counter that Settle watches moves BEFORE the handler runs. Handlers at
+				// points inside the cascade have returned by the time cascade.done is counted
+				// (same goroutine), but the cascade.done handler itself may not even have
+				// started: that point is always reached, so wait for its image unconditionally.
+				if took.Load() == 1 || point == "cascade.done" {
+					select {
+					case <-imgDone:
+					case <-time.After(60 * time.Second):
+						ctx.Inconclusive("image handler at " + point + " did not complete")
+						return
+					}
 				}
 				verifhook.Reset()
 				if took.Load() == 0 {
